@@ -137,8 +137,15 @@ fn amount_pairs(t: &dyn QtyOps, ua: usize, ub: usize, cfg: &Cfg, rng: &mut Rng, 
     let base = base_amounts();
     if let (Some(sa), Some(sb)) = (t.scale(ua), t.scale(ub)) {
         let ks: Vec<i64> = if cfg.thorough { vec![1, 3, 7, 12, 60, 1000] } else { rotate(&[1i64, 3, 7, 12, 60, 1000], salt, 1) };
-        for k in ks {
-            let kk = small_int(k);
+        // the same constructions with a tiny and a huge common factor (products of the two amounts under- or overflow)
+        let mut kks: Vec<AmountT> = ks.iter().map(|k| small_int(*k)).collect();
+        if salt % 4 == 0 || cfg.thorough {
+            #[cfg(feature = "dec")]
+            kks.extend([from_parts_dec(false, 3, -10), from_parts_dec(false, 7, 9)]);
+            #[cfg(not(feature = "dec"))]
+            kks.extend([3e-170, 7e160, 3e-10]);
+        }
+        for kk in kks {
             // equal by construction (in exact arithmetic): a = k*sb, b = k*sa ; a = k*(sb/sa), b = k ; a = k, b = k*(sa/sb)
             let cands = [
                 safe(|| (kk * sb, kk * sa)),
@@ -216,7 +223,8 @@ pub fn c02_cmp(reg: &Registry, cfg: &Cfg, out: &mut Out, noref: bool) {
         #[cfg(not(feature = "dec"))]
         {
             // NaN / infinities: only the internal-consistency and same-unit clauses say anything here
-            for (a, b) in [(f64::NAN, 1.0), (1.0, f64::NAN), (f64::NAN, f64::NAN), (f64::INFINITY, 1.0), (f64::NEG_INFINITY, f64::INFINITY), (0.0, -0.0)] {
+            for (a, b) in [(f64::NAN, 1.0), (1.0, f64::NAN), (f64::NAN, f64::NAN), (f64::INFINITY, 1.0), (f64::NEG_INFINITY, f64::INFINITY), (0.0, -0.0),
+                           (f64::INFINITY, f64::INFINITY), (f64::NEG_INFINITY, f64::NEG_INFINITY), (f64::MAX, f64::MAX), (5e-324, 5e-324)] {
                 out.ev("Cmp", t.cmp(a, 0, b, n - 1));
                 out.ev("Cmp", t.cmp(a, 0, b, 0));
             }
@@ -589,6 +597,16 @@ pub fn c15_format(reg: &Registry, cfg: &Cfg, out: &mut Out) {
                 }
                 let a = rnd_amount(&mut rng, -20, 50);
                 out.ev("Format", t.format(a, u, sp));
+                if i % 3 == 0 {
+                    // widths exactly at / one below / one above the natural length of this very output
+                    let probe = t.format(a, u, &Spec { width: None, ..sp.clone() });
+                    if let Some(n) = probe["out"]["ok"]["cp"].as_array().map(|c| c.len()) {
+                        for w in [n.saturating_sub(1), n, n + 1] {
+                            out.ev("Format", t.format(a, u, &Spec { width: Some(w), ..sp.clone() }));
+                            out.ev("Format", t.format(-a, u, &Spec { width: Some(w), ..sp.clone() }));
+                        }
+                    }
+                }
                 if i % 4 == 0 {
                     out.ev("FormatUnit", t.format_unit(u, sp));
                 }
@@ -665,6 +683,16 @@ pub fn c18_special(reg: &Registry, cfg: &Cfg, out: &mut Out) {
                     continue;
                 }
                 salt += 1;
+                // a large amount of a small unit against a small amount of a large unit (and vice versa): every
+                // natural magnitude can be in range while the quotient of the raw amounts is not
+                {
+                    let (big, small) = (from_parts_dec(false, 1, 15), from_parts_dec(false, 1, -6));
+                    for (a, b) in [(big, small), (small, big)] {
+                        out.ev("Cmp", t.cmp(a, ua, b, ub));
+                        out.ev("Arith", t.arith("div", a, ua, b, ub));
+                        out.ev("Arith", t.arith("add", a, ua, b, ub));
+                    }
+                }
                 let xs = if cfg.thorough { specials.clone() } else { rotate(&specials, salt, 4) };
                 for (i, a) in xs.iter().enumerate() {
                     out.ev("Convert", t.convert(*a, ua, ub));
@@ -677,6 +705,12 @@ pub fn c18_special(reg: &Registry, cfg: &Cfg, out: &mut Out) {
                         out.ev("Scalar", t.scalar(["kxq", "qxk", "qdk"][i % 3], *a, ua, b));
                         out.ev("Format", t.format(*a, ua, &sp));
                         out.ev("Format", t.format(*a, ua, &sp0));
+                        let probe = t.format(*a, ua, &Spec { plus: true, ..sp0.clone() });
+                        if let Some(n) = probe["out"]["ok"]["cp"].as_array().map(|c| c.len()) {
+                            for w in [n.saturating_sub(2), n.saturating_sub(1), n, n + 1] {
+                                out.ev("Format", t.format(*a, ua, &Spec { plus: true, width: Some(w), ..sp0.clone() }));
+                            }
+                        }
                         out.ev("Fit", t.fit(*a));
                     }
                 }
